@@ -570,6 +570,33 @@ func runC09(c *core.Ctx) {
 			deliver(1, fmt.Sprintf("dict-retrievalmethod variant=%d #%d %s", variant, di, truncate(d, 30)), so.Bytes(el))
 		}
 	}
+	// (b2) data cipher values of every length 0..4 blocks+1 (and a few around a KiB) behind a VALID EncryptedKey, so that the
+	// block-cipher code is reached with its key: IV only, IV plus partial block, one block, ...
+	{
+		o.Reset()
+		encBase, _ := c09BuildResponse(o, 0, 1, true, true, 1)
+		lens := []int{1023, 1024, 1025}
+		for n := 0; n <= 65; n++ {
+			lens = append(lens, n)
+		}
+		for _, n := range lens {
+			if !mine() || encBase == nil {
+				continue
+			}
+			el, perr := so.Parse(encBase)
+			if perr != nil {
+				break
+			}
+			cv := el.FindElement("./EncryptedAssertion/EncryptedData/CipherData/CipherValue")
+			if cv == nil {
+				break
+			}
+			b := make([]byte, n)
+			c.Rng.Read(b)
+			cv.SetText(base64.StdEncoding.EncodeToString(b))
+			deliver(1, fmt.Sprintf("cipher-value-length %d behind a valid EncryptedKey", n), so.Bytes(el))
+		}
+	}
 	// (c) every algorithm identifier of the dictionary in every position of a response that names an algorithm
 	{
 		o.Reset()
